@@ -372,10 +372,12 @@ func IsBoolNode(n Node) bool {
 //@ ensures [C03] fresh: r0 != nil && fresh(r0) && r0.numberNode != nil && r0.numberNode.literal == num && r0.numberNode.next == nil
 
 //@ func (*IntegerNode).Int
+//@ pure
 //@ props C03 C01
 //@ assumes part: n.numberNode != nil
 
 //@ func (*NumericNode).Float
+//@ pure
 //@ props C03 C01
 //@ assumes part: n.numberNode != nil
 
